@@ -534,7 +534,8 @@ class ListMatcher(Matcher):
         return decoder(self.value())
 
     def supports(self, astype):
-        return self._format.supports(astype)
+        # Synthetic lists (e.g. for Every queries) have no posting format
+        return self._format is not None and self._format.supports(astype)
 
     def next(self):
         self._i += 1
